@@ -368,8 +368,8 @@ func cmdBuild(args []string) {
 		fmt.Fprintln(w, "From GO Require Import Base.Str Model.Tokenizer Model.Option Model.Tree Model.Build Run.Check.")
 		fmt.Fprintln(w, "Open Scope N_scope.")
 		names := ""
-		for i, dd := range defs[:k] {
-			fmt.Fprintf(w, "Definition c_%d : bcase :=\n %s.\n", i, dd.CoqString())
+		for i := range defs[:k] {
+			fmt.Fprintf(w, "Definition c_%d : bcase :=\n %s.\n", i, sampleText(defs[:k], i))
 			if i > 0 {
 				names += ";"
 			}
